@@ -33,6 +33,7 @@ import (
 	"sort"
 	"strings"
 	"sync"
+	"syscall"
 	"time"
 
 	"github.com/honeycombio/refinery/config"
@@ -517,8 +518,9 @@ var stackBuf = make([]byte, 1<<20)
 // blockedStates are the goroutine wait states that only another goroutine's action can end.
 var blockedStates = []string{"chan receive", "chan send", "select", "semacquire", "sync."}
 
-// othersBlocked reports whether every goroutine except the caller is parked in a blocked state.
-func othersBlocked() (bool, string) {
+// othersBlocked reports whether every goroutine except the caller is parked in a blocked state; if not, the state
+// and the stack record of the first goroutine that is not.
+func othersBlocked() (bool, string, string) {
 	for {
 		n := runtime.Stack(stackBuf, true)
 		if n < len(stackBuf) {
@@ -528,7 +530,7 @@ func othersBlocked() (bool, string) {
 	}
 }
 
-func parseStates(b []byte) (bool, string) {
+func parseStates(b []byte) (bool, string, string) {
 	first := true
 	for len(b) > 0 {
 		// records are separated by blank lines; each starts with "goroutine N [state...]:"
@@ -549,7 +551,7 @@ func parseStates(b []byte) (bool, string) {
 		l := bytes.IndexByte(rec, '[')
 		r := bytes.IndexByte(rec, ']')
 		if l < 0 || r < l {
-			return false, "unparsable: " + string(rec[:min(len(rec), 80)])
+			return false, "unparsable: " + string(rec[:min(len(rec), 80)]), ""
 		}
 		st := string(rec[l+1 : r])
 		ok := false
@@ -563,27 +565,84 @@ func parseStates(b []byte) (bool, string) {
 			if bytes.Contains(rec, []byte("runtime/pprof.profileWriter")) {
 				continue // only present when the harness itself is being profiled (C26_PROF)
 			}
-			return false, st
+			return false, st, string(rec[:min(len(rec), 4000)])
 		}
 	}
-	return true, ""
+	return true, "", ""
 }
 
-// quiesce returns when every other goroutine is blocked. The spin bound is a count of scheduler yields, not
-// a time limit; it is only there to turn a livelock (a goroutine that never blocks) into a harness error.
-func quiesce() {
-	var last string
+// cpuSeconds is the CPU time (user + system) this process has consumed so far.
+func cpuSeconds() float64 {
+	var ru syscall.Rusage
+	if err := syscall.Getrusage(syscall.RUSAGE_SELF, &ru); err != nil {
+		return 0
+	}
+	return float64(ru.Utime.Sec) + float64(ru.Utime.Usec)/1e6 + float64(ru.Stime.Sec) + float64(ru.Stime.Usec)/1e6
+}
+
+// livelockCPUSeconds is the horizon of one barrier wait, in CPU seconds of this process (not wall time, so a loaded
+// machine cannot trip it). The closed system has a frozen fake clock and an in-memory network; one execution needs a
+// few milliseconds of CPU. Code that is still running after this much CPU, without ever blocking, with nothing for it
+// to wait for, does not terminate.
+const livelockCPUSeconds = 15.0
+
+// livelock describes a goroutine of the code under test that kept running through a whole horizon.
+type livelock struct {
+	State string // goroutine state when the horizon ended
+	Stack string // its stack record
+	CPU   float64
+}
+
+// where names the function of package transmit the spinning goroutine is in (innermost frame of that package).
+func (l *livelock) where() string {
+	for _, line := range strings.Split(l.Stack, "\n") {
+		const p = "github.com/honeycombio/refinery/transmit."
+		if i := strings.Index(line, p); i >= 0 {
+			f := line[i+len(p):]
+			if j := strings.IndexByte(f, '('); j > 0 && strings.HasPrefix(f, "(*") { // (*DirectTransmission).sendBatch(...)
+				f = strings.TrimPrefix(f, "(*DirectTransmission).")
+			}
+			if j := strings.IndexAny(f, "(."); j > 0 {
+				f = f[:j]
+			}
+			return f
+		}
+	}
+	return "code-under-test"
+}
+
+// poisoned is set once a livelock has been observed: the spinning goroutine cannot be stopped from inside the
+// process, no later barrier could ever clear, so this worker process stops executing cases (its results so far and
+// the violation are reported; the parent and the other workers carry on).
+var poisoned bool
+var lastLivelock *failure
+
+// quiesce returns nil when every other goroutine is blocked, or a livelock when the CPU horizon ended first. The
+// spin bound is a count of scheduler yields, not a time limit; it only turns a harness bug into a harness error.
+func quiesce() *livelock {
+	var last, lastRec string
+	start := -1.0
 	for spins := 0; spins < 50_000_000; spins++ {
 		runtime.Gosched()
-		ok, st := othersBlocked()
+		ok, st, rec := othersBlocked()
 		if ok {
-			return
+			return nil
 		}
-		last = st
+		last, lastRec = st, rec
+		if spins >= 200 && spins%50 == 0 { // the fast path (a handful of yields) never looks at the CPU clock
+			now := cpuSeconds()
+			if start < 0 {
+				start = now
+			} else if now-start > livelockCPUSeconds {
+				poisoned = true
+				return &livelock{State: last, Stack: lastRec, CPU: now - start}
+			}
+		}
 	}
 	buf := make([]byte, 1<<16)
 	n := runtime.Stack(buf, true)
 	ev.Harness("quiescence barrier did not clear (last non-blocked state %q)\n%s", last, buf[:n])
+	return nil
 }
 
 // ---------------------------------------------------------------------------------------------
@@ -621,21 +680,22 @@ type world struct {
 	script   []answer
 	spos     int
 
-	events    map[string]*sentEvent
-	order     []string
-	inBatch   map[string]*batch // event id -> batch
-	batches   map[string]*batch // batch key -> batch
-	blist     []*batch
-	reqs      []*request
-	stopped   bool
-	idleAtEnd bool
-	allAtEnd  bool // the last quiescent instant had an outcome for every event
-	stopDone  chan struct{}
-	stopPanic any
-	trace     []string
-	fail      *failure
-	census    map[string]int64 // vacuity census of this execution (merged into the evidence when it passes)
-	stopping  bool             // Stop() has been called and has not returned yet
+	events     map[string]*sentEvent
+	order      []string
+	inBatch    map[string]*batch // event id -> batch
+	batches    map[string]*batch // batch key -> batch
+	blist      []*batch
+	reqs       []*request
+	stopped    bool
+	idleAtEnd  bool
+	allAtEnd   bool // the last quiescent instant had an outcome for every event
+	stopDone   chan struct{}
+	stopPanic  any
+	trace      []string
+	fail       *failure
+	livelocked bool             // a goroutine of the code under test never stopped running (see quiesce)
+	census     map[string]int64 // vacuity census of this execution (merged into the evidence when it passes)
+	stopping   bool             // Stop() has been called and has not returned yet
 }
 
 func (w *world) note(key string, n int64) {
@@ -801,6 +861,9 @@ func (w *world) stop() {
 	}()
 	for w.fail == nil {
 		w.settle()
+		if w.fail != nil {
+			return
+		}
 		select {
 		case <-w.stopDone:
 			if w.stopPanic != nil {
@@ -819,13 +882,44 @@ func (w *world) stop() {
 	}
 }
 
+// quiesce waits for the barrier; a livelock becomes the failure of this execution.
+func (w *world) quiesce() bool {
+	l := quiesce()
+	if l == nil {
+		return true
+	}
+	w.livelocked = true
+	cls := "events-up-to-1MB"
+	var waiting []string
+	for _, id := range w.order {
+		s := w.events[id]
+		if b := w.inBatch[id]; b != nil && b.Attempts[len(b.Attempts)-1] != nil {
+			continue
+		}
+		waiting = append(waiting, fmt.Sprintf("%s(%dB)", id, max(s.Size, 0)))
+		switch {
+		case s.Size > maxBodySize:
+			cls = "event-over-5MB"
+		case s.Size > maxEventSize && cls != "event-over-5MB":
+			cls = "event-over-1MB"
+		}
+	}
+	defer func() { lastLivelock = w.fail }()
+	w.trace = append(w.trace, fmt.Sprintf("@%v   !! a goroutine is still running after %.0f CPU-seconds without ever blocking", w.now(), l.CPU))
+	w.failf("livelock:"+l.where()+"-does-not-terminate:"+cls, "with the fake clock frozen at %v, nothing on the network and nobody asleep, a goroutine in %s kept running (state %q) for %.0f CPU-seconds without blocking; events without an outcome: %v; queued_items = %d. Stack:\n%s",
+		w.now(), l.where(), l.State, l.CPU, waiting, w.gauge(), l.Stack)
+	return false
+}
+
 // settle brings the system to quiescence with no parked round trip. Each round: wait for quiescence, take ALL
 // parked round trips in canonical order, give them the next script answers in that order, release them. The
 // sends then proceed concurrently, but they only share commutative metric updates, and whatever they request
 // next parks again and is ordered canonically in the next round.
 func (w *world) settle() {
 	for {
-		quiesce()
+		if !w.quiesce() {
+			return
+		}
 		p := w.net.takeParked()
 		if len(p) == 0 {
 			break
@@ -853,6 +947,9 @@ func (w *world) settle() {
 // now on, new sleeps return at once, the real Stop() runs, and goroutines already inside a retry sleep are woken
 // by one clock jump once the dispatcher (and with it both tickers) is gone.
 func (w *world) teardown() {
+	if w.livelocked {
+		return // nothing can be released: the process is given up (see poisoned)
+	}
 	w.net.setAuto()
 	w.clk.setAuto()
 	for _, c := range w.net.takeParked() {
@@ -866,10 +963,12 @@ func (w *world) teardown() {
 			w.d.Stop()
 		}()
 	}
-	quiesce()
+	if !w.quiesce() {
+		return
+	}
 	if w.clk.sleepers() > 0 {
 		w.clk.Advance(2 * time.Minute)
-		quiesce()
+		w.quiesce()
 	}
 	// a Stop() that is still blocked now is deadlocked (reported by the histories that contain stop); its
 	// goroutines stay parked for the rest of the process and do not disturb the barrier.
